@@ -137,7 +137,7 @@ def rand_input(rng, kind=None):
     if kind == "bare":
         return (rand_script(rng, 3), sigop_script(rng), [])
     if kind == "p2sh":
-        return (b"\x00" + push(rand_data(rng, 10)) + push(ws, rng.choice([None, 1, 2])), P2SH, [])
+        return (rng.choice([b"\x00", b"\x60", b"\x51", b"\x4f"]) + push(rand_data(rng, 10)) + push(ws, rng.choice([None, 1, 2])), P2SH, [])
     if kind == "p2sh-bad":
         return (rng.choice([push(ws) + b"\x76", push(ws)[:-1], push(ws) + b"\x51", b"", b"\xac" + push(ws)]), P2SH, [])
     if kind == "p2wpkh":
@@ -187,6 +187,8 @@ def gen_fn(rng, tier):
             sigs = [push(ws), b"\x00" + push(rand_data(rng, 5)) + push(ws), push(ws, 1), push(ws, 2), push(ws, 3), push(ws) + b"\x76", push(ws) + b"\x51",
                     push(ws) + b"\x00", push(ws) + b"\x4f", push(ws) + b"\x50", push(ws) + b"\x61", b"", push(ws)[:-1], b"\x6a" + push(ws),
                     push(ws) + push(b""), push(ws) + bytes([0x4c]), rand_script(rng, 4)]
+            # every opcode around the "push" boundary OP_16 in front of the redeem script push
+            sigs += [bytes([op]) + push(ws) for op in (0x00, 0x4f, 0x50, 0x51, 0x5f, 0x60, 0x61, 0x62)]
             for sg in sigs:
                 cases.append("p2sh %s %s" % (hx(spk), hx(sg)))
     # witness
@@ -199,6 +201,8 @@ def gen_fn(rng, tier):
         for st in witness_stacks(rng)[1:3]:
             cases.append(fmt_wit(1, 1, push(spk), P2SH, st))
             cases.append(fmt_wit(1, 1, b"\x00" + push(spk), P2SH, st))
+            for op in (0x4f, 0x50, 0x60, 0x61):       # around the push-only boundary OP_16
+                cases.append(fmt_wit(1, 1, bytes([op]) + push(spk), P2SH, st))
         cases.append(fmt_wit(1, 1, push(spk) + b"\x76", P2SH, [bytes([0xac])]))
         cases.append(fmt_wit(1, 1, push(spk, 1), P2SH, [bytes([0xac])]))
         cases.append(fmt_wit(1, 1, push(spk), P2SH[:-1] + b"\x88", [bytes([0xac])]))
